@@ -68,6 +68,22 @@ CLAIMED["C18"] = dict(
   technique="Coq proof (case analysis over decidable equalities; sorting/dedup lemmas) + checked correspondence incl. exhaustive quotient",
   ref="5.8")
 
+CLAIMED["C04"] = dict(
+  text="Coq theorems, closed under the global context, over ALL source/destination trees (sorted association lists path -> (bytes, whole-second mtime) under PathBuf order, as insertion builds them - proved), all flag sets, EVERY completion order (any permutation of the transfer list, which covers every --jobs n >= 1) and EVERY failure oracle: at every path the destination after a non-dry run holds nothing if the path is in plan.delete, else the source's entry (bytes and mtime) if it is in plan.transfer and its delivery did not fail, else exactly its previous entry (oneway_exact); in the property's terms, through C19's set characterisations restated on trees: every non-excluded source file that was absent or differed in size or whole-second mtime arrives with the source's bytes and mtime when nothing failed, files the quick check matched keep bytes and mtime, a path whose entry changed was deleted by the plan or delivered, without --delete non-source paths are untouched, with it exactly the non-excluded destination-only files go; the result (tree at every path, exit status, plan, kind, counters) is independent of the completion order; exit status non-zero iff some delivery failed, and whatever fails nothing outside transfer + delete is touched; the source is an input only. Push: bash's decoding of $'<escape s>' returns s for EVERY byte string and continuation (unquote_escape), `xargs -0` splits a NUL-terminated list of NUL-free paths into exactly those paths, the remote command publishes a staging file iff all announced bytes arrived. Membership in plan lists is up to PathBuf equality. Tie: the real `copia sync -r` binary (local, push and pull through an ssh stand-in, real bash/cat/mv/touch/find/xargs) on generated tree pairs with hostile names, all per-file destination states, flag sets over --delete/--exclude/--jobs/--verbose; dry run, real run and second run per case; kind, exit, plan lists, counters and final tree (bytes + whole-second mtimes) compared line by line with the extracted model; independent oracles on the implementation.",
+  note="Trusted as C19, plus: the three transports are modelled by their common effect on the destination tree (validated in all three directions); bash ANSI-C unquoting, xargs -0, cat/mv/touch/find are small Gallina models (exercised for real through the stand-in, not verified); ssh replaced by a stand-in (no sshd); completion orders are quantified in the proof, not driven in the tie (the binary picks its own under --jobs 1/2/4/16); failing deliveries are covered by the theorems only; staging names are not tree entries (harness oracle: none remains; crash behaviour is C09); domain: regular files, no file/directory clash, no name ending in .copia-tmp, mtimes >= epoch.",
+  technique="Coq proof (closed form of the two folds at every path, for arbitrary order and failure oracle; set characterisations from C19) + checked correspondence with the real binary in three directions",
+  ref="5.9")
+CLAIMED["C14"] = dict(
+  text="Coq theorems, closed under the global context, for all sorted trees, flag sets, completion orders: after a non-dry run in which no delivery failed (proved equivalent to exit status 0) the plan of the same command on the result is EMPTY - no transfer (delivered entries carry the source's size and whole-second mtime, skipped ones were equal) and no delete (deleted files are gone, excluded destination-only files never were in the list) - so the second run, for any order argument and failure oracle, is UpToDate/NoFiles, sends nothing, exits 0 and returns the destination tree unchanged (second_run_empty_plan, second_run_identity); a path is sent iff it is a non-excluded source file absent from the destination or differing in size or whole-second mtime (sent_iff_changed). Tie: after every generated real run of `copia sync -r` that exits 0 (local/push/pull, hostile names, sizes from 0, source mtimes from 0 to 2^32+1 with sub-second parts) the same command is run again on the real binary and must plan nothing, exit 0 and leave both snapshots (bytes + mtimes) identical; first-run results compared with the extracted model.",
+  note="Trusted as C04. The three mtime writers/readers (SystemTime, touch -d @secs, find %T@ truncated) are represented by the whole-second mtime of the model's trees; their round trip for the swept timestamps is what the binary-level second runs check (far-future end bounded by the sandbox file system).",
+  technique="Coq proof (second plan computed from the closed form of the first run) + checked correspondence incl. real second runs",
+  ref="5.10")
+CLAIMED["C15"] = dict(
+  text="Coq theorems, closed under the global context. Matcher/planner level in Props/C19.v (glob_match = the wildcard definition for every pattern and text, is_excluded characterised, excluded paths never planned, no delete list without the flag). Run level here, for all trees, flag sets, every completion order and failure oracle: the destination entry of an excluded path is unchanged by `sync -r` (with or without --delete/--dry-run), where excluded means every spelling of the path that is a key of one of the trees is excluded - for trees that spell common paths alike this is is_excluded p = true for a file of either tree; a counterexample shows the premise is needed in the model (pattern `a//b` vs source spelling `a/b`); without --delete every path present in the destination is present afterwards; --dry-run returns the destination tree itself and its plan is the plan component of the real run from the same trees (whose effect is C04's oneway_exact); `bisync --dry-run` returns both trees and the archive unchanged and its printed plan is the plan the real run applies from the same state. Tie: real `copia sync -r -n` then the real run on generated trees/patterns over an alphabet with * ? [ ] . / (three directions), snapshots before/after, printed send/delete lists compared with the extracted model and with the real run's effects; real `copia bisync --dry-run` before every run of generated bisync histories, plan compared with the model's, trees unchanged.",
+  note="Trusted as C04 and C19; Model/Bisync.v as C02 (HOME redirected; archive and plan compared with the model after every operation; the tree-unchanged oracle of the bisync dry run is on both trees).",
+  technique="Coq proof (corollaries of the closed form of a run; unfolding for the dry runs) + checked correspondence with the real binary (sync -r in three directions, bisync)",
+  ref="5.7")
+
 NA_REASON = "check not built yet in this session; see DESIGN.md section 5 for the planned model and theorems"
 
 
